@@ -607,11 +607,64 @@ def sibling_closure(rng, variant):
     return p
 
 
+def finally_chain(rng, variant):
+    """outer try/finally ⊃ loop ⊃ inner try/finally that contains BOTH a break/continue and a return/raise (either order, each
+    guarded by a decision); a variable is assigned right before each jump and read in the inner finally, the outer finally and
+    after the statement"""
+    b = _B(rng)
+    b.features.update(['try', 'finally', 'finally_chain'])
+    _head(b)
+    loop = ['for i in n():', 'while d():'][variant % 2]
+    lj = ['break', 'continue'][(variant // 2) % 2]
+    fj = (variant // 4) % 2                     # 0 return, 1 raise (caught by an outermost try)
+    order = (variant // 8) % 2                  # which jump comes first in the inner try body
+    handler = (variant // 16) % 2               # outer statement also has an except clause
+    rekill = (variant // 32) % 2                # the variable is reassigned after the loop (inside the outer try): the value
+                                                # assigned before the return reaches the outer finally ONLY along the return path
+    ind = 1
+    if fj == 1:
+        b.e(ind, 'try:'); ind += 1
+    b.e(ind, 'try:')
+    b.e(ind + 1, 'r = tr(%d, 0)' % b.slot())
+    b.e(ind + 1, loop)
+    b.e(ind + 2, 'y = tr(%d, y)' % b.slot())
+    b.e(ind + 2, 'try:')
+
+    def loop_jump():
+        b.e(ind + 3, 'if d():'); b.e(ind + 4, 'r = tr(%d, 2)' % b.slot()); b.e(ind + 4, lj)
+
+    def fn_jump():
+        b.e(ind + 3, 'if d():'); b.e(ind + 4, 'r = tr(%d, 1)' % b.slot())
+        b.e(ind + 4, 'return tr(%d, r)' % b.slot() if fj == 0 else 'raise E2(tr(%d))' % b.slot())
+    if order == 0:
+        loop_jump(); fn_jump()
+    else:
+        fn_jump(); loop_jump()
+    b.e(ind + 3, 'r = tr(%d, 3)' % b.slot())
+    b.e(ind + 2, 'finally:'); b.e(ind + 3, 'z = tr(%d, r)' % b.slot())          # inner finally reads r
+    b.e(ind + 2, 'w = tr(%d, r, w)' % b.slot())
+    if rekill:
+        b.e(ind + 1, 'r = tr(%d, 5)' % b.slot())
+    if handler:
+        b.e(ind, 'except E1:'); b.e(ind + 1, 'w = tr(%d, w)' % b.slot())
+    b.e(ind, 'finally:'); b.e(ind + 1, 'x = tr(%d, r)' % b.slot())              # outer finally reads r
+    if fj == 1:
+        ind -= 1
+        b.e(ind, 'except E2:'); b.e(ind + 1, 'y = tr(%d, x)' % b.slot())
+    b.e(1, 'y = tr(%d, r, x, z)' % b.slot())                                     # read after the statement
+    b.e(1, 'return tr(0, y, w)')
+    p = b.prog('finally_chain')
+    p.decisions = [[1, 0, 1, 0, 0, 0, 0, 0], [1, 1, 0, 0, 0, 0], [2, 0, 0, 0, 1, 0, 0, 0], [2, 0, 0, 1, 0, 0, 0, 0], [1, 0, 0, 1, 0, 1, 0, 0],
+                   [2, 1, 0, 0, 1, 0, 0], [1, 0, 0, 0, 0, 0], [0] * 6]
+    return p
+
+
 FAMILIES = [('zero_trip_for', zero_trip, 30), ('closure', closure, 60), ('lambda_later', lambda_later, 6),
             ('closure_binds_local', closure_binds, 12), ('misc', misc, 18),
             ('def_time_reads', def_time, 27), ('closure_in_branch', closure_in_branch, 72),
             ('prefix_names', prefix_names, 80), ('starred_target', starred_targets, 72), ('try_else_finally', try_else_finally, 48),
-            ('loop_else', loop_else, 48), ('early_binding', early_binding, 18), ('sibling_closure', sibling_closure, 16)]
+            ('loop_else', loop_else, 48), ('early_binding', early_binding, 18), ('sibling_closure', sibling_closure, 16),
+            ('finally_chain', finally_chain, 64)]
 
 
 def scenario_programs(rng, scale=1):
